@@ -28,7 +28,7 @@ RULE = (
     "workflow, failing task, foreign-host marker) every pre-emption point index k of the executing process "
     "(Python lines of job.py/result.py [+filelock in fine mode], simulated sleeps, every chunk of every file "
     "write, body points) -> SIGKILL at k, then resubmission; plus truncation of _result.pklz to every "
-    "(quick: strided) length.  Non-trivial = the victim had acquired the job lock (a lock/info/dir residue "
+    "(quick: strided) length; for the workflow scenario additionally resubmission through the asynchronous path (cf worker on the simulated pool).  Non-trivial = the victim had acquired the job lock (a lock/info/dir residue "
     "exists) or a result file was truncated; distinct = distinct (scenario, point label, residue shape)."
 )
 COMPONENTS = {
@@ -41,7 +41,7 @@ ASSUMPTIONS = [
     "same host unless the scenario says foreign-host",
     "resubmission budget: 120 simulated seconds and 60k scheduler steps",
 ]
-PROBES = ["resub_after_pool_kill", "stale_lock_broken", "torn_result_retried", "resub_cache_hit", "resub_reexecuted", "kill_inside_body", "kill_mid_write"]
+PROBES = ["async_resubmission", "resub_after_pool_kill", "stale_lock_broken", "torn_result_retried", "resub_cache_hit", "resub_reexecuted", "kill_inside_body", "kill_mid_write"]
 
 SCENARIOS = ["plain", "slow", "errored_existing", "rerun_existing", "wf", "failing", "foreign_host"]
 X = 4
@@ -186,9 +186,14 @@ def plan(tier, seed):
     # moment; the same workflow is then submitted again into the same cache root
     for i in range({"quick": 40}.get(tier, 600)):
         cases.append({"id": f"pool-{i}", "scen": "pool", "fine": False, "k": i, "n": 0, "label": "SIGKILL of a pool worker at a seeded step"})
+    # the same crash points of the workflow scenario, but the resubmission goes through the
+    # asynchronous path (cf worker on the simulated pool: Job.run_async, PydraFileLock)
+    wf_pts = [c for c in cases if c["scen"] == "wf" and not c["fine"]]
+    for c in wf_pts[:: 1 if tier == "thorough" else 4]:
+        cases.append({"id": c["id"] + "-async", "scen": "wf", "fine": False, "k": c["k"], "n": c["n"], "label": c["label"], "async_resub": True})
     if tier == "thorough":
         # second crash during recovery (sampled), resubmission racing a second submitter
-        base = [c for c in cases if c["scen"] in ("slow", "wf", "rerun_existing") and not c["fine"]]
+        base = [c for c in cases if c["scen"] in ("slow", "wf", "rerun_existing") and not c["fine"] and not c.get("async_resub")]
         for i, c in enumerate(base):
             for j in range(3):
                 cases.append({"id": c["id"] + f"-double{j}", "scen": c["scen"], "fine": False, "k": c["k"], "n": c["n"], "label": c["label"], "double": j + 1})
@@ -372,6 +377,8 @@ def run_case(case, ch, workdir):
                 res["fault_trace"].append(f"SIGKILL recovering process at point {upto}: {at2}")
             complete = _complete_results(cache)
             n_ev = len(sim.events)
+        if case.get("async_resub"):
+            return _async_resub(case, ch, workdir, res, sim, cache, complete, shape, had_lock)
         names = ["resub"] + (["racer"] if case.get("race") else [])
         for nm in names:
             sim.spawn(nm, _run, (real_scen, cache))
@@ -439,6 +446,47 @@ def run_case(case, ch, workdir):
         res["digest"] = hashlib.sha256(repr((scen, fine, case["label"], shape, sorted(enters.items()), outcome)).encode()).hexdigest()[:20]
     finally:
         sim.shutdown()
+    return res
+
+
+def _async_resub(case, ch, workdir, res, sim, cache, complete, shape, had_lock):
+    """the victim (sequential submission of the workflow) is dead; the same workflow is now
+    submitted through the asynchronous path on the simulated pool"""
+    import hashlib
+
+    from checks import histcommon as hc
+
+    steps0 = sim.steps
+    res["faults"] = dict(sim.faults)
+    sim.shutdown()
+    status, val, events, extra = hc.submit(ch, workdir, _task("wf"), cache, worker="cf", salt=case["id"])
+    sig = "wf-async"
+    enters = {}
+    for _n, d in events:
+        if d[0] == "enter":
+            enters[d[1]] = enters.get(d[1], 0) + 1
+    ctx = f"crash at [{case['label']}]; residue={shape}"
+    if status == "hang":
+        violation(res, "wedged", sig, f"asynchronous resubmission did not terminate: {val}; {ctx}")
+    elif status != "ok":
+        violation(res, "resub-error", sig, f"asynchronous resubmission raised {val.get('type')}: {val.get('msg', '')[:500]}; {ctx}")
+    else:
+        if val != {"out": _expected("wf")}:
+            violation(res, "wrong-result", sig, f"asynchronous resubmission returned {val}, expected {_expected('wf')}; {ctx}")
+        had_complete = sum(1 for v in complete.values() if v)
+        if len(enters) + had_complete < 2:
+            violation(res, "crash-as-success", sig, f"resubmission succeeded with {len(enters)} executions but only {had_complete} complete result(s) on disk; {ctx}")
+    for key, n in enters.items():
+        if n > 1:
+            violation(res, "double-exec", sig, f"{key} executed {n} times by one resubmission; {ctx}")
+    res["steps"] = steps0 + extra.get("steps", 0)
+    res["sim_s"] = extra.get("sim_s", 0.0)
+    res["probes"] = dict(sim.probes)
+    res["probes"]["async_resubmission"] = 1
+    if "lock" in shape and status == "ok":
+        res["probes"]["stale_lock_broken"] = res["probes"].get("stale_lock_broken", 0) + 1
+    res["nontrivial"] = bool(had_lock)
+    res["digest"] = hashlib.sha256(repr(("wf-async", case["label"], shape, sorted(enters.items()), status, extra.get("digest"))).encode()).hexdigest()[:20]
     return res
 
 
